@@ -291,6 +291,22 @@ theorem good_grpcHeartbeat (s : St) (id mask : Nat) (d w : Bool) (hinv : Inv s.s
         refine ⟨h.inv, h.fwd, h.bury, h.failed, ?_⟩
         intro hr; exact absurd rfl hr
 
+theorem good_handleHeartbeat (s : St) (id mask : Nat) (d w : Bool) (hinv : Inv s.served s.stored) :
+    Good s (handleHeartbeat s id mask) d w := by
+  unfold handleHeartbeat
+  split
+  · exact good_reject s _ d w hinv
+  · next sv hsv =>
+    split
+    · exact good_reject s _ d w hinv
+    · have h : Good s (commit s id { sv with persisted := true } (failBit mask 0)) d w := by
+        apply good_commit s id _ _ d w hinv
+        · intro a ha; rw [hsv] at ha; cases ha; exact fwd_refl _
+        · intro _ a ha h3 h4; rw [hsv] at ha; cases ha; exact absurd h4 h3
+        · exact addr_kept s id sv _ hinv hsv rfl (fun h => h)
+      refine ⟨h.inv, h.fwd, h.bury, h.failed, ?_⟩
+      intro hr; exact absurd rfl hr
+
 theorem good_removeStore (s : St) (id : Nat) (destroyed : Bool) (mask : Nat) (d w : Bool)
     (hinv : Inv s.served s.stored) : Good s (removeStore s id destroyed mask) d w := by
   unfold removeStore
@@ -583,6 +599,26 @@ theorem good_checkStores (s : St) (order : List Nat) (mask : Nat) (w : Bool) (hi
     have := (h.failed x hx hxf).1
     unfold sameSv; rw [this]
 
+theorem good_checkStoresOnly (s : St) (ids : List Nat) (mask : Nat) (w : Bool) (hinv : Inv s.served s.stored) :
+    Good s (checkStoresOnly s ids mask) false w := by
+  have h := checkLoop_rel s mask (dedupAux [] ids) s 0 [] (dedupAux_spec _ _).1
+    ⟨rfl, hinv, fun _ => Or.inl rfl, fun _ hx => by simp at hx⟩
+  unfold checkStoresOnly
+  dsimp only
+  refine ⟨h.inv, ?_, ?_, ?_, fun hr => absurd rfl hr⟩
+  · intro id a ha
+    rcases h.entries id with h1 | ⟨a', ha', hoff, _, h4⟩
+    · rw [h1, ha]; exact fwd_refl _
+    · rw [ha] at ha'; cases ha'
+      rw [h4]; exact fwd_tomb _ (by rw [hoff]; decide)
+  · intro _ id a b ha hb h3 h4
+    rcases h.entries id with h1 | ⟨a', ha', _, htc, _⟩
+    · rw [h1, ha] at hb; cases hb; exact absurd h4 h3
+    · exact htc
+  · intro x hx hxf
+    have := (h.failed x hx hxf).1
+    unfold sameSv; rw [this]
+
 /-- loop invariant of `RemoveTombStoneRecords` -/
 structure RmRel (s0 s : St) : Prop where
   inv : Inv s.served s.stored
@@ -691,5 +727,8 @@ theorem good_step (s : St) (op : Op) (hinv : Inv s.served s.stored) :
   | weight id lw rw mask => exact good_setWeight s id lw rw mask _ _ hinv
   | rmtomb order mask => exact good_removeTombstones s order mask _ hinv
   | region rid stores => exact good_regionHeartbeat s rid stores _ _ hinv
+  | labelsFrom r force mask => exact good_putImpl s r force _ _ _ hinv
+  | hbHandle id mask => exact good_handleHeartbeat s id mask _ _ hinv
+  | checkOnly ids mask => exact good_checkStoresOnly s ids mask _ hinv
 
 end PdModel.StoreFsm
